@@ -56,7 +56,6 @@ Theorem C02_bed3_end_to_end :
     rows <> [] ->
     (forall r, In r rows -> len r = 3 /\ (forall f, In f r -> clean f)
                             /\ numeral (field r 1) = true /\ numeral (field r 2) = true) ->
-    (exists r, In r rows /\ field r 0 <> []) ->
     hd0 (body_of crlf rows) <> 35 ->
     run Fbed3 None (lay (eol_of crlf) hs ++ body_of crlf rows) = Obs (len rows) (spec_cols Fbed3 None rows) true.
 Proof. exact bed3_end_to_end. Qed.
@@ -76,7 +75,6 @@ Theorem C02_typed_col_correct :
   forall t rows j ty,
     table_ok t rows -> rows <> [] -> 0 <= j -> (forall r, In r rows -> j < len r) ->
     (forall r, In r rows -> wf_field ty (field r j) = true) ->
-    (ty = TSid -> exists r, In r rows /\ field r j <> []) ->
     typed_col t j ty = spec_col rows (j, ty).
 Proof. exact typed_col_correct. Qed.
 Print Assumptions C02_typed_col_correct.
@@ -149,29 +147,31 @@ Theorem C02_fasta2_end_to_end :
 Proof. exact fasta2_end_to_end. Qed.
 Print Assumptions C02_fasta2_end_to_end.
 
-(* SAM.  The ragged table (records with different numbers of TAB-separated fields) denotes the eleven mandatory
-   fields of every record, and the rest-of-line arithmetic yields the optional tags as written (empty when absent). *)
+(* SAM, LF or CRLF (CRLF since /repo 6bbd290).  The ragged table (records with different numbers of TAB-separated fields)
+   denotes the eleven mandatory fields of every record (CR removed from the last one), record ends are taken before the
+   CR adjustment, and the rest-of-line arithmetic yields the optional tags as written, without CR (empty when absent). *)
 Theorem C02_sam_table_correct :
-  forall (rows : list (list (list Z))),
+  forall (crlf : bool) (rows : list (list (list Z))),
     rows <> [] ->
     (forall r, In r rows -> (11 <= List.length r)%nat /\ forall f, In f r -> clean f) ->
-    let file := lay [10] (map (intercalate [9]) rows) in
+    let file := lay (eol_of crlf) (map (intercalate [9]) rows) in
     exists t E, sam_table file = Some t /\ t_data t = file
               /\ table_ok t (map (firstn 11) rows) /\ len (t_starts t) = len rows
-              /\ t_ends t = map (firstn 11) E /\ t_eends t = map (fun r => lastz r + 1) E /\ List.length (t_starts t) = List.length E
-              /\ map (rest_of file) E = map (fun r => intercalate [9] (skipn 11 r)) rows.
+              /\ t_ends t = map (firstn 11) (map (adj crlf) E) /\ t_eends t = map (fun r => m_entry_end (lastz r)) E
+              /\ List.length (t_starts t) = List.length E
+              /\ map (fun d => rest_of file (adj crlf d) d) E = map (fun r => intercalate [9] (skipn 11 r)) rows.
 Proof. exact sam_table_correct. Qed.
 Print Assumptions C02_sam_table_correct.
-(* SAM, whole LF files: '@' header lines never become entries; name, flag, reference, position (as written), mapq,
+(* SAM, whole files, LF or CRLF: '@' header lines never become entries; name, flag, reference, position (as written), mapq,
    cigar, mate fields, template length (signed), sequence and quality texts, and the tags as one text column. *)
 Theorem C02_sam_end_to_end :
-  forall (hs : list (list Z)) (rows : list (list (list Z))),
+  forall (crlf : bool) (hs : list (list Z)) (rows : list (list (list Z))),
     (forall h, In h hs -> hd0 h = 64 /\ ~ In 10 h) ->
     rows <> [] ->
     (forall r, In r rows -> (11 <= List.length r)%nat /\ forall f, In f r -> clean f) ->
     (forall jt, In jt (schema Fsam) -> snd jt <> TRest -> col_wf rows 11 jt) ->
-    hd0 (body_of false rows) <> 64 ->
-    run Fsam None (lay [10] hs ++ body_of false rows) = Obs (len rows) (spec_cols Fsam None rows) true.
+    hd0 (body_of crlf rows) <> 64 ->
+    run Fsam None (lay (eol_of crlf) hs ++ body_of crlf rows) = Obs (len rows) (spec_cols Fsam None rows) true.
 Proof. exact sam_end_to_end. Qed.
 Print Assumptions C02_sam_end_to_end.
 
@@ -313,12 +313,12 @@ Theorem C02_intlist_refuted :
 Proof. exact intlist_refuted. Qed.
 Print Assumptions C02_intlist_refuted.
 
-(* Identifier (SequenceID) columns are the field texts unless every text is empty (then the code raises). *)
-Theorem C02_sid_partial :
-  forall txts, (exists t, In t txts /\ t <> []) -> sid_col txts = Col (map CBytes txts).
-Proof. exact sid_partial. Qed.
-Print Assumptions C02_sid_partial.
-Theorem C02_sid_all_empty_refuted : exists txts, txts <> [] /\ sid_col txts <> Col (map CBytes txts).
+(* Identifier (SequenceID) columns are the field texts — since /repo 58b75b9 also when every text is empty; the code before
+   that repair (sid_col_pinned) raised on such a column. *)
+Theorem C02_sid_correct : forall txts, sid_col txts = Col (map CBytes txts).
+Proof. exact sid_correct. Qed.
+Print Assumptions C02_sid_correct.
+Theorem C02_sid_all_empty_refuted : exists txts, txts <> [] /\ sid_col_pinned txts <> Col (map CBytes txts).
 Proof. exact sid_all_empty_refuted. Qed.
 Print Assumptions C02_sid_all_empty_refuted.
 
@@ -358,8 +358,11 @@ Theorem C02_source_tie :
   /\ (forall s e j n, gen_field_len s e = e - s /\ gen_gfbn_first j n = j /\ gen_gfbn_step j n = n
                        /\ s + gen_gfbn_keep_len (gen_field_len s e) = m_keep_end e)
   /\ (forall v, gen_vcf_shift_col = m_pos_shift_col /\ gen_vcf_shift v = m_pos_shift v)
-  /\ (forall s e ee st, gen_sam_extra_start s (gen_field_len s e) = m_extra_start e
-                         /\ gen_sam_extra_len ee st = m_extra_len ee st)
+  /\ (forall s e ee st c cum, gen_sam_extra_start s (gen_field_len s e) = m_extra_start e
+                         /\ gen_sam_extra_end0 ee = m_extra_end0 ee /\ gen_sam_extra_probe e = m_extra_probe e
+                         /\ gen_sam_extra_end e c = m_extra_end e c /\ gen_sam_extra_len ee st = m_extra_len ee st
+                         /\ gen_sam_entry_ends_before_cr = m_entry_ends_before_cr /\ gen_sam_last_field cum = cum - 1
+                         /\ gen_sam_cr_probe e = m_cr_probe e /\ gen_sam_cr_adjust e c = m_cr_adjust e c)
   /\ (forall s k size l, gen_hfm_line_len k = m_line_len k /\ gen_hfm_ignored s k size = m_ignored s k size
                           /\ gen_value_start s k = m_value_start s k /\ gen_value_len l k = m_value_len l k false
                           /\ gen_value_keep_len (gen_value_len l k) = m_value_len l k true).
@@ -373,7 +376,7 @@ Proof.
         (conj b_flag_len_match
         (conj (fun s e j n => conj (b_field_len s e) (conj (proj1 (b_gfbn_select j n)) (conj (proj2 (b_gfbn_select j n)) (b_gfbn_keep s e))))
         (conj b_vcf_shift
-        (conj (fun s e ee st => conj (b_sam_extra_start s e) (b_sam_extra_len ee st))
+        (conj (fun s e ee st c cum => conj (b_sam_extra_start s e) (conj (proj1 (b_sam_extra_end ee e c)) (conj (proj1 (proj2 (b_sam_extra_end ee e c))) (conj (proj2 (proj2 (b_sam_extra_end ee e c))) (conj (b_sam_extra_len ee st) (b_sam_cr cum e c))))))
               (fun s k size l => conj (b_hfm_line_len k) (conj (b_hfm_ignored s k size) (conj (b_value_start s k) (b_value_len l k)))))))))))))).
 Qed.
 Print Assumptions C02_source_tie.
